@@ -709,6 +709,10 @@ func bounds1(t *Term) (lo, hi *big.Int) {
 	return t.Lo, t.Hi
 }
 
+// GroundAxiomHook lets the client add closed facts about an application term that occurs in a query.
+// The facts may only mention symbols that already occur in the query or are registered UFs with ground args.
+var GroundAxiomHook func(t *Term) []*Term
+
 // MaxLen: modelling assumption -- every sequence (Go slice, string, ghost history) has a length that fits in int.
 var MaxLen = new(big.Int).Sub(new(big.Int).Lsh(big.NewInt(1), 63), big.NewInt(1))
 
@@ -1130,7 +1134,15 @@ func printTerm(b *strings.Builder, t *Term, names map[int]string) {
 
 // Script renders a satisfiability query for the conjunction of asserts.
 // defs: extra top-level definitions (define-fun / define-fun-rec text) to include.
+type DefFun struct {
+	Name   string
+	Params []*Term
+	Res    *Sort
+	Body   *Term
+}
+
 type Script struct {
+	DefFuns []*DefFun
 	Logic   string
 	Asserts []*Term
 	Named   []string // optional comments per assert
@@ -1224,6 +1236,38 @@ func (s *Script) Render() string {
 	for _, a := range all {
 		walk(a)
 	}
+	// recursive spec-function definitions that are actually used (transitively)
+	var usedDefs []*DefFun
+	usedDef := map[string]bool{}
+	for changed := true; changed; {
+		changed = false
+		for _, d := range s.DefFuns {
+			if !usedDef[d.Name] && ufs[d.Name] {
+				usedDef[d.Name] = true
+				usedDefs = append(usedDefs, d)
+				for _, p := range d.Params {
+					bound[p.id] = true
+					addSort(p.Sort)
+				}
+				addSort(d.Res)
+				walk(d.Body)
+				changed = true
+			}
+		}
+	}
+	// ground axioms contributed per application term (e.g. interior references are non-nil and injective)
+	axioms := append([]*Term{}, s.Axioms...)
+	if GroundAxiomHook != nil {
+		memo0 := map[int]bool{}
+		for _, t := range append([]*Term{}, order...) {
+			if t.Op == "app" && !containsBound(t, bound, memo0) {
+				for _, ax := range GroundAxiomHook(t) {
+					axioms = append(axioms, ax)
+					walk(ax)
+				}
+			}
+		}
+	}
 	for name := range ufs {
 		d := UFs[name]
 		for _, a := range d.Args {
@@ -1275,7 +1319,7 @@ func (s *Script) Render() string {
 		}
 	}
 	for _, n := range un {
-		if defined[n] {
+		if defined[n] || usedDef[n] {
 			continue
 		}
 		d := UFs[n]
@@ -1290,6 +1334,23 @@ func (s *Script) Render() string {
 	}
 	for _, d := range s.Defs {
 		b.WriteString(d + "\n")
+	}
+	if len(usedDefs) > 0 {
+		// one mutually-recursive block keeps ordering irrelevant
+		b.WriteString("(define-funs-rec (")
+		for _, d := range usedDefs {
+			b.WriteString("(" + symName(d.Name) + " (")
+			for _, p := range d.Params {
+				b.WriteString("(" + symName(p.Name) + " " + p.Sort.str + ")")
+			}
+			b.WriteString(") " + d.Res.str + ")")
+		}
+		b.WriteString(") (")
+		for _, d := range usedDefs {
+			printTerm(&b, d.Body, nil)
+			b.WriteString("\n")
+		}
+		b.WriteString("))\n")
 	}
 	// shared subterm naming (only for terms without bound variables)
 	names := map[int]string{}
@@ -1329,7 +1390,7 @@ func (s *Script) Render() string {
 			b.WriteString("(assert (<= " + tb.String() + " " + IntB(hi).String() + "))\n")
 		}
 	}
-	for _, a := range s.Axioms {
+	for _, a := range axioms {
 		b.WriteString("(assert ")
 		printTerm(&b, a, names)
 		b.WriteString(")\n")
